@@ -496,6 +496,48 @@ def scenTx (toks : List String) (obs : String) : Verdict :=
     if a == obs then .ok
     else .prop "C14" "bytes/frames on the device or the results differ from the byte-exact wire image" a
 
+/-- `psend <link> <own> <packet> <responses> [flush answers]`: `send_packet` over a real link sender (C16 composed with
+C14): own-address packets go to the local handler once and not to the link (unless the own address is broadcast);
+everything else goes to the link byte-exact under back-pressure and to no local handler -/
+def scenPsend (toks : List String) (obs : String) : Verdict :=
+  match toks with
+  | link :: owns :: ps :: rs :: rest =>
+    match parseHexNat owns, parsePacket ps with
+    | some own, some p =>
+      let own := UInt16.ofNat own
+      let isLocal := p.addr == own
+      let toLink := !isLocal || own == BROADCAST
+      let h := if isLocal then " h1" else " h0"
+      let ans : Option String :=
+        if !toLink then
+          pure ((if link == "serial" then "-/f0" else "-") ++ " ok" ++ h)
+        else if link == "usart" then do
+          let r ← parseWResps rs
+          let us ← bodiesOf p
+          pure (showLogBytes (usartSendMany [us] r) ++ " ok" ++ h)
+        else if link == "can" then do
+          let r ← parseTxResps rs
+          let cs ← canOf p
+          let (log, res) := canSendMany [cs] r
+          pure (showCanLog log ++ " " ++ showSendResults res ++ h)
+        else do
+          let r ← parseIoResps rs
+          let us ← bodiesOf p
+          let (w, n, res) := serialSendMany [us] r (parseFlushes (rest.headD "o"))
+          pure (showLogBytes w ++ "/f" ++ toString n ++ " " ++ showSendResults res ++ h)
+      match ans with
+      | none => .bad "parse"
+      | some a =>
+        if a == obs then .ok
+        else
+          -- routing (local handler calls, on the link or not) is C16; the bytes on the link are C14 as well
+          let routeOf (o : String) : String × Bool :=
+            (((o.splitOn " ").getLast?).getD "", (o.startsWith "-/f0 " || o.startsWith "- "))
+          if routeOf a != routeOf obs then .prop "C16" "a sent packet is not routed to local handlers / the link as addressed" a
+          else .prop "C16,C14" "a packet sent through the protocol does not reach the link unmodified, exactly once" a
+    | _, _ => .bad "parse"
+  | _ => .bad "parse"
+
 /-! ## loop-back and end to end -/
 
 def scenLoop (toks : List String) (obs : String) : Verdict :=
@@ -625,6 +667,7 @@ def judge (inp obs : String) : Verdict :=
   | "rxh" :: link :: items :: _ => scenRxh link items obs
   | "tx" :: rest => scenTx rest obs
   | "loop" :: rest => scenLoop rest obs
+  | "psend" :: rest => scenPsend rest obs
   | "e2e" :: rest => scenE2e rest obs
   | ["proto", addr, rxq, txq, ops] => scenProto addr rxq txq ops obs
   | _ => .bad "unknown scenario"
